@@ -76,8 +76,8 @@ def log2(x):
 
 
 def conv_bursts(cls, dwf, dwt, klass, tier, part=None):
-    """the master-side bursts (addr, len, size, burst, id, resp) of one class.  `part` splits the classes `unaligned` and
-    `wrap` into the sub-class the converter translates ("ok": cfg tag ',unaligned' / ',wrap', must stay clean) and the rest
+    """the master-side bursts (addr, len, size, burst, id, resp) of one class.  `part` splits the classes `unaligned`,
+    `wrap` and (down-converter) `narrow` into the sub-class the converter translates ("ok": cfg tag ',unaligned' / ',wrap', must stay clean) and the rest
     ("ko": cfg tag '+unaligned' / '+wrap'):
       unaligned/ok  down-converter: every offset (it aligns the address itself); up-converter: offsets inside the first
                     narrow word of a wide word (the converted burst starts at the same address with the wide size)
@@ -94,9 +94,11 @@ def conv_bursts(cls, dwf, dwt, klass, tier, part=None):
     out = []
 
     def add(addr, ln, size, bt):
-        if part is not None and klass in ("unaligned", "wrap"):
+        if part is not None and klass in ("unaligned", "wrap", "narrow"):
             if klass == "unaligned":
                 ok = (addr % wide) < mb if up else True
+            elif klass == "narrow":
+                ok = ln == 0        # down-converter: a single narrow transfer is translated correctly (the rest is KF-C10-2)
             else:
                 ok = (addr % wide == 0 and ln + 1 >= 2 * ratio) if up else ((ln + 1) * ratio <= 16)
             if ok != (part == "ok"):
@@ -207,7 +209,11 @@ def _conv():
                 reg(",maxlen", "maxlen", t=tier if (dwf, dwt) == (64, 32) else "thorough")
                 reg("+lenoverflow", "lenoverflow")
             if dwf > 8:
-                reg("+narrow", "narrow")
+                if up:
+                    reg("+narrow", "narrow")
+                else:
+                    reg(",narrow", "narrow", part="ok")
+                    reg("+narrow", "narrow", part="ko")
                 reg("+narrow+unaligned", "narrow+unaligned", t="thorough")
             reg("+fixed", "fixed")
             reg(",wrap", "wrap", part="ok")
